@@ -149,8 +149,11 @@ REASONS = {"rule": rule_reason, "layer": _lr_reason}
 def terminal_check(obj, st, hist, res, classify, part, evs):
     cls = classify(st)
     reason = REASONS.get(part)
-    for i, ev in enumerate(evs):
-        got = run_rule(copy.deepcopy(obj), ev)
+    # the same rule object is applied to both architectures and then once more to the first:
+    # a MUST_ERROR specification may not turn into a verdict on re-application either
+    shared = copy.deepcopy(obj)
+    for i, ev in enumerate(list(evs) + [evs[0]]):
+        got = run_rule(shared if cls == "MUST_ERROR" else copy.deepcopy(obj), ev)
         res.transitions += 1
         res.evaluations += 1
         res.traces += 1
@@ -360,6 +363,14 @@ def unknown_name_cases(ns, I, seed, res, level_limit=None, extra_unknown=()):
                 if pos == "subj":
                     for imp in (True, False):
                         specs.append(dict(verb="should_not", imp=imp, exc=False, sk=kind, subj=(bad,), ok=None, obj=None, anything=True))
+                        # unknown name in a batch next to existing modules (also below one of them)
+                        for batch in ((a, bad), (bad, b), (a, b, bad)):
+                            specs.append(dict(verb="should_not", imp=imp, exc=False, sk=kind, subj=batch, ok=None, obj=None, anything=True))
+                    for verb, imp, exc in SHAPES:
+                        specs.append(dict(verb=verb, imp=imp, exc=exc, sk=kind, subj=(b, bad), ok="named", obj=(a,)))
+                else:
+                    for verb, imp, exc in SHAPES:
+                        specs.append(dict(verb=verb, imp=imp, exc=exc, sk="named", subj=(a,), ok=kind, obj=(b, bad)))
                 for spec in specs:
                     got = run_rule(mkrule(spec, seed), ev)
                     res.transitions += 1
